@@ -11,16 +11,16 @@ import (
 )
 
 func init() {
-	register(&Rule{ID: "E-TYPECHECK", Props: []string{"C02", "C13", "C08"}, Floor: 100,
+	register(&Rule{ID: "E-TYPECHECK", Props: []string{"C02", "C13", "C08"}, Floor: 79,
 		Doc: "in every built-in helper that can fail (results (T, error)), the ok of every comma-ok type assertion and of every toDecimal call is tested, and the failure edge cannot reach a success return before another type test: every return reached first carries *InvalidTypeError (or the error type the table names for that helper); helpers for which the specification turns a mismatch into null/false are listed one by one",
 		Run: ruleETypeCheck})
-	register(&Rule{ID: "E-TOINT", Props: []string{"C02", "C08", "C14"}, Floor: 6,
+	register(&Rule{ID: "E-TOINT", Props: []string{"C02", "C08", "C14"}, Floor: 3,
 		Doc: "at every call of the integer coercion toInt the failure edge (!ok) only reaches error returns: *InvalidTypeError when the value is not a number, *integerConversionError (invalid-value) when it is a number that is not an integer in range; no path continues with the zero result",
 		Run: ruleEToInt})
-	register(&Rule{ID: "E-NEGCOUNT", Props: []string{"C02", "C09", "C03"}, Floor: 10,
+	register(&Rule{ID: "E-NEGCOUNT", Props: []string{"C02", "C09", "C03"}, Floor: 3,
 		Doc: "every integer obtained from toInt meets a sign test (< 0) before any other use; for counts and widths the negative edge returns *negativeIntegerError, for search offsets it clamps or returns null",
 		Run: ruleENegCount})
-	register(&Rule{ID: "E-NULL-HELPERS", Props: []string{"C02", "C13", "C01"}, Floor: 10,
+	register(&Rule{ID: "E-NULL-HELPERS", Props: []string{"C02", "C13", "C01"}, Floor: 3,
 		Doc: "helpers that turn a type mismatch into null (a single `any` result and no error: selectors and comparison operators) are called only from the dispatcher, never from a built-in function, which must report invalid-type instead",
 		Run: ruleENullHelpers})
 }
@@ -605,4 +605,189 @@ func underFailedToDecimal(b *ssa.BasicBlock, v ssa.Value) bool {
 		}
 	}
 	return false
+}
+
+// ---------------------------------------------------------------- E-TYPE-FIRST
+
+func init() {
+	register(&Rule{ID: "E-TYPE-FIRST", Props: []string{"C02", "C08"}, Floor: 4,
+		Doc: "Invalid-type takes precedence over invalid-value, by path enumeration of every built-in helper that can report a value fault (integer conversion, negative count, pad length, from_items shapes): on a path that returns such an error, every argument whose type the helper tests on some path has passed its type test — so a call with one ill-typed and one out-of-range argument is reported as invalid-type whatever the order of the arguments (the specification's 'invalid-type exactly when a type is outside the signature').",
+		Run: ruleETypeFirst})
+}
+
+func ruleETypeFirst(p *Program, r *Reporter) {
+	valueErr := map[string]bool{}
+	for t, cat := range evalCategory {
+		if cat == "ErrInvalidValue" {
+			n := t[strings.LastIndex(t, ".")+1:]
+			valueErr[n] = true
+		}
+	}
+	for _, fn := range p.ReachFuncs(p.Eval) {
+		if fn.Parent() != nil || fn.Signature.Recv() != nil {
+			continue
+		}
+		sig := fn.Signature
+		if sig.Results().Len() != 2 || !isErrorType(sig.Results().At(1).Type()) || sig.Params().Len() < 2 {
+			continue
+		}
+		allAny := true
+		for i := 0; i < sig.Params().Len(); i++ {
+			if !isAnyType(sig.Params().At(i).Type()) {
+				allAny = false
+			}
+		}
+		if !allAny {
+			continue
+		}
+		// only helpers that can construct a value-fault error (themselves or through their own helpers)
+		constructs := false
+		seenFn := map[*ssa.Function]bool{}
+		var scan func(f *ssa.Function, depth int)
+		scan = func(f *ssa.Function, depth int) {
+			if seenFn[f] || depth > 2 || constructs {
+				return
+			}
+			seenFn[f] = true
+			for _, b := range f.Blocks {
+				for _, in := range b.Instrs {
+					if mi, ok := in.(*ssa.MakeInterface); ok && isErrorType(mi.Type()) {
+						tn := typeShort(mi.X.Type())
+						if valueErr[tn[strings.LastIndex(tn, ".")+1:]] {
+							constructs = true
+						}
+					}
+				}
+			}
+			for _, c := range staticCallees(f) {
+				if p.IsRepo(c) && !numericRoles(p).isCoercion(c) {
+					scan(c, depth+1)
+				}
+			}
+		}
+		scan(fn, 0)
+		if !constructs {
+			continue
+		}
+		nd := &numDom{p: p}
+		e := newEngine(p, nd)
+		nd.e = e
+		e.MaxVisits = 1
+		e.MaxPaths = 30000
+		st := newState()
+		args := make([]AV, len(fn.Params))
+		for i := range args {
+			args[i] = avSym{id: e.fresh(), tag: fmt.Sprintf("arg%d", i)}
+		}
+		outs := e.Run(fn, args, st)
+		name := p.FuncName(fn)
+		key := name + " type errors first"
+		if e.Aborted != "" {
+			r.Unknown(fn.Pos(), key, "path enumeration aborted: "+e.Aborted)
+			continue
+		}
+		// per path: which parameters were type-tested, and with what outcome
+		type tests map[int]bool // param index -> passed
+		paramOf := func(v AV) int {
+			for i, a := range args {
+				if v != nil && avKey(v) == avKey(a) {
+					return i
+				}
+			}
+			return -1
+		}
+		pathTests := func(o Outcome) tests {
+			t := tests{}
+			for _, c := range o.St.Conds {
+				sy, ok := c.V.(avSym)
+				if !ok {
+					continue
+				}
+				if strings.HasPrefix(sy.tag, "assert-ok:") {
+					if i := paramOf(sy.payload); i >= 0 {
+						t[i] = c.Truth
+					}
+				}
+			}
+			var lastToInt *Event
+			for k := range o.St.Trace {
+				ev := &o.St.Trace[k]
+				if len(ev.Args) == 0 {
+					continue
+				}
+				i := paramOf(ev.Args[0])
+				if i < 0 {
+					continue
+				}
+				switch ev.Kind {
+				case "coerced":
+					t[i] = true
+				case "coerce-failed":
+					if isRole(ev.Fn, "toInt") && len(ev.Res) > 1 {
+						lastToInt = ev
+						// a number that is not an integer has the right type: decided by the is-number flag
+						decided := false
+						for _, c := range o.St.Conds {
+							if avKey(c.V) == avKey(ev.Res[1]) {
+								t[i], decided = c.Truth, true
+							}
+							if n, ok := c.V.(avNot); ok && avKey(n.x) == avKey(ev.Res[1]) {
+								t[i], decided = !c.Truth, true
+							}
+						}
+						if !decided {
+							if _, seen := t[i]; !seen {
+								t[i] = true // reported without consulting the flag: E-TOINT's business
+							}
+						}
+					} else if _, seen := t[i]; !seen {
+						t[i] = false
+					}
+				}
+			}
+			_ = lastToInt
+			return t
+		}
+		tested := map[int]bool{}
+		for _, o := range outs {
+			if o.Panic || o.Cut {
+				continue
+			}
+			for i := range pathTests(o) {
+				tested[i] = true
+			}
+		}
+		nValue := 0
+		bad := ""
+		var badPos token.Pos
+		for _, o := range outs {
+			if o.Panic || o.Cut || len(o.Res) != 2 || bad != "" {
+				continue
+			}
+			et := dynName(o.Res[1])
+			if !valueErr[et] {
+				continue
+			}
+			nValue++
+			t := pathTests(o)
+			for i := range tested {
+				passed, seen := t[i]
+				if !seen {
+					bad = fmt.Sprintf("a path reports %s before the type of argument %d has been tested: with that argument ill-typed too the call is reported as invalid-value instead of invalid-type", et, i+1)
+					badPos = o.Ret.Pos()
+				} else if !passed {
+					bad = fmt.Sprintf("a path reports %s although argument %d failed its type test", et, i+1)
+					badPos = o.Ret.Pos()
+				}
+			}
+		}
+		if nValue == 0 {
+			continue
+		}
+		if bad != "" {
+			r.Bad(badPos, key, bad)
+		} else {
+			r.OK(fn.Pos(), key, fmt.Sprintf("%d value-fault paths, each after every tested argument passed its type test", nValue))
+		}
+	}
 }
